@@ -290,7 +290,9 @@ def build_witness(step, out, keys, preimage):
     if wk == 'htlc2':
         return maybe_twice(tw_b, T.make_htlc2_witness, seed, preimage, sf, flag, pfx)
     if wk == 'ptlc':
-        tw = bytes.fromhex(out['tweak']) if 'tweak' in out and step['actor'] == 'R' else None
+        # (whoever holds the receiver key holds the tweak scalar)
+        tw = bytes.fromhex(out['tweak']) if 'tweak' in out and \
+            keys[step['actor']][1] == keys['R'][1] else None
         return maybe_twice(tw_b, T.make_ptlc_witness, seed, sf, tw, flag, pfx)
     return maybe_twice(tw_b, T.make_ptlc_refund_witness, seed, sf, flag, pfx)
 
@@ -378,8 +380,13 @@ def execute(plan, run):
         c = plan['clocks'][name]
         CLOCK.add_node(name, epoch0_s=c['epoch0_s'], offset_us=c['offset_us'] + c.get('frac_us', 0),
                        drift_ppm=c['drift_ppm'], frac=frac)
+    actors = dict(plan['actors'])
+    if plan['idx'] % 11 == 5:
+        # one key in two roles: the sender's refund key is the receiver's key
+        actors['S'] = actors['R']
+        run.probe('receiver_key_is_refund_key')
     keys = {a: (bytes.fromhex(s), pubkey_of_seed(bytes.fromhex(s)))
-            for a, s in plan['actors'].items()}
+            for a, s in actors.items()}
     if frac:
         run.probe('fractional_now')
     events = [(o['at_us'], 0, oid, None) for oid, o in plan['outputs'].items()]
@@ -593,9 +600,9 @@ def execute(plan, run):
             else:
                 claim = step['wkind'] == 'ptlc'
             if claim:
-                meta = who == 'R' and flag_ok
+                meta = keys[who][1] == keys['R'][1] and flag_ok    # (by key, not by name)
             else:
-                meta = and3(who == 'S', flag_ok, t >= deadline,
+                meta = and3(keys[who][1] == keys['S'][1], flag_ok, t >= deadline,
                             slack3(t, reads, step['thr']) if t >= deadline else False)
             run.judge('builders_end_to_end', obs, verdict3(meta),
                       lambda o, m, who=who, claim=claim: 'C15/%s/builder_flow/%s_%s_by_%s/%s/%s' % (
